@@ -151,6 +151,10 @@ Definition get_symbol (i : mid) : qm N :=
   _ <- put (setm i m2 (s <| H := H' |> <| L := L' |>)) ;;
   _ <- renorm 100 ;; ret sym.
 
+(* ghost checks: the model "goes wrong" with this status wherever qtmd.c would store or copy outside window[0..window_size);
+   Proofs/QtmSafe.v shows it never does *)
+Definition OOBQ : N := 96.
+Definition inb (ws src dst n : N) : bool := (src + n <=? ws) && (dst + n <=? ws).
 Fixpoint copy_fwd (n : nat) (w : tr) (src dst : N) : tr :=
   match n with O => w | S n' => copy_fwd n' (tset QWD w dst (tget QWD w src QJUNK)) (src + 1) (dst + 1) end.
 Fixpoint copy_mask (n : nat) (w : tr) (j dst mask : N) : tr * N :=
@@ -166,6 +170,7 @@ Fixpoint inner (fuel : nat) (frame_end out_bytes : N) : qm (bool * N) :=
     sel <- get_symbol M7 ;;
     if sel <? 4 then
       sym <- get_symbol (if sel =? 0 then M0 else if sel =? 1 then M1 else if sel =? 2 then M2 else M3) ;;
+      sl <- get ;; if wsize sl <=? wposn sl then fail OOBQ else        (* ghost: window[window_posn++] = sym *)
       _ <- modify (fun s => s <| win := tset QWD (win s) (wposn s) (N.land sym 255) |> <| wposn := wposn s + 1 |>
                               <| frame_todo := N.land (frame_todo s + M32 - 1) (M32 - 1) |>) ;;
       inner f frame_end out_bytes
@@ -185,6 +190,7 @@ Fixpoint inner (fuel : nat) (frame_end out_bytes : N) : qm (bool * N) :=
       s1 <- get ;;
       if wsize s1 <? wposn s1 + ml then
         (* match wraps the window: copy first part, flush, copy second part, leave the loop *)
+        if (wsize s1 <? wposn s1) || (wsize s1 <? ml - (wsize s1 - wposn s1)) then fail OOBQ else   (* ghost: both halves of the wrapped copy stay inside the window *)
         let i := wsize s1 - wposn s1 in
         let j0 := N.land (wposn s1 + M32 - mo) (M32 - 1) in       (* int j = window_posn - match_offset, used masked *)
         let '(w1, j1) := copy_mask (N.to_nat i) (win s1) j0 (wposn s1) (wsize s1 - 1) in
@@ -199,10 +205,13 @@ Fixpoint inner (fuel : nat) (frame_end out_bytes : N) : qm (bool * N) :=
         _ <- (if wposn s1 <? mo then
            let j := mo - wposn s1 in
            if wsize s1 <? j then fail ERR_DECRUNCH else
+           if negb (if j <? ml then inb (wsize s1) (wsize s1 - j) (wposn s1) j && inb (wsize s1) 0 (wposn s1 + j) (ml - j)
+                    else inb (wsize s1) (wsize s1 - j) (wposn s1) ml) then fail OOBQ else     (* ghost *)
            let w' := if j <? ml
                      then copy_fwd (N.to_nat (ml - j)) (copy_fwd (N.to_nat j) (win s1) (wsize s1 - j) (wposn s1)) 0 (wposn s1 + j)
                      else copy_fwd (N.to_nat ml) (win s1) (wsize s1 - j) (wposn s1) in
            put (s1 <| win := w' |> <| wposn := wposn s1 + ml |>)
+         else if negb (inb (wsize s1) (wposn s1 - mo) (wposn s1) ml) then fail OOBQ          (* ghost *)
          else put (s1 <| win := copy_fwd (N.to_nat ml) (win s1) (wposn s1 - mo) (wposn s1) |> <| wposn := wposn s1 + ml |>)) ;;
         inner f frame_end out_bytes
   end.
